@@ -212,6 +212,17 @@ class LoadEngine(SqlEngine):
     CAST(VARCHAR AS DATE/TIMESTAMP) on the shapes VALID_DATE_REGEX admits (1-2 digit month/day, optional time part)."""
 
     pruner: Any = None      # vc.charprune.CharPruner over the character variables (solver-free pruning), optional
+    lazy_prune: bool = False
+    _macros_of_this_process: Any = None
+
+    def __init__(self, decls: Any = None, macros: Any = None, max_paths: int = 50000) -> None:
+        # the macro files are parsed once per process (a check run), not once per engine
+        if macros is None:
+            if LoadEngine._macros_of_this_process is None:
+                from .sqlvc import load_macros
+                LoadEngine._macros_of_this_process = load_macros()
+            macros = LoadEngine._macros_of_this_process
+        super().__init__(decls, macros, max_paths)
 
     def _feasible(self, cond: Any) -> bool:
         if not is_sym(cond):
@@ -220,7 +231,27 @@ class LoadEngine(SqlEngine):
             r = self.pruner.feasible(list(self.assume or []) + list(self.pc), cond)
             if r is not None:
                 return r
+            if self.lazy_prune:
+                return True      # last decisions of a row: exploring an infeasible leaf is cheaper than a solver call
         return super()._feasible(cond)
+
+    def ev_Trim(self, e: exp.Trim, env: Dict[str, SV]) -> SV:
+        """TRIM(x): as the base model, but a character known to be a decimal digit (rendered from a number) is not a
+        blank without asking the solver."""
+        a = self.eval(e.this, env)
+        if a.sort == "null":
+            return a
+        chars = list(a.v.chars)
+
+        def blank(c: Any) -> bool:
+            if is_digit(c) is True:
+                return False
+            return self.decide(Eq(c, 32))
+        while chars and blank(chars[0]):
+            chars.pop(0)
+        while chars and blank(chars[-1]):
+            chars.pop()
+        return SV("str", CStr(chars), a.null)
 
     def ev_RegexpLike(self, e: exp.RegexpLike, env: Dict[str, SV]) -> SV:
         a = self.eval(e.this, env)
@@ -349,6 +380,8 @@ def run_row(eng: SqlEngine, prog: LoadProgram, row: Dict[str, SV]) -> RowOutcome
     """One source row through the extracted program.  Raises SqlOutside when a step leaves the model."""
     env = {k.lower(): v for k, v in row.items()}
     stored: Dict[str, SV] = {}
+    if hasattr(eng, "lazy_prune"):
+        eng.lazy_prune = False
     try:
         if prog.insert_where is not None:
             keep = eng.truth(eng.as_bool(eng.eval(prog.insert_where, env)))
@@ -370,6 +403,8 @@ def run_row(eng: SqlEngine, prog: LoadProgram, row: Dict[str, SV]) -> RowOutcome
                 if prog.not_null.get(col) and (stored[col].sort == "null" or eng.decide(stored[col].null)):
                     return RowOutcome(False, stored, f"NOT NULL constraint on {col} (UPDATE)")
         senv = {k.lower(): v for k, v in stored.items()}
+        if hasattr(eng, "lazy_prune"):
+            eng.lazy_prune = eng.pruner is not None
         for c in prog.temporal_cases:
             r = eng.eval(c, senv)
             if r.sort == "null":
